@@ -843,7 +843,7 @@ def _run(ctx, torch):
                                       dict(lmax=lmax, lmax_prefix=lp, N=N, M=M))
                     # ---- a./c. driver
                     if thorough:
-                        use = lmax <= 3 or (lmax == 4 and ki == ci % 4) or (lmax == 5 and ki == ci % 4 and ci % 2 == 0) or (lmax == 6 and ki == ci % 4 and ci in (0, 1, 9, 10, 15, 22, 23))
+                        use = lmax <= 3 or (lmax == 4 and ki == ci % 4) or (lmax == 5 and ki == ci % 4 and ci % 3 == 0) or (lmax == 6 and ki == ci % 4 and ci in (0, 1, 10, 15, 23))
                     else:
                         use = (lmax <= 2 and (ki == ci % 4 or ci in (0, 7))) or (lmax == 3 and ki == ci % 4 and ci in (0, 1, 9, 10, 15, 23))
                     if not use:
